@@ -40,6 +40,21 @@ func RelToCwd(filename string) string {
 	return filename
 }
 
+// AbsFromCwd is the inverse of RelToCwd: it returns the (cleaned) absolute form of the given
+// filename, where a relative filename is interpreted with respect to the current working directory
+// (retrieved during initialization). Unlike the names returned by RelToCwd, the result does not
+// depend on where in the file tree the working directory lies, which makes it the right key for
+// ordering files: "c/c.go" sorts before "d/d.go", but "c.go" (seen from c/) after "../d/d.go".
+func AbsFromCwd(filename string) string {
+	if _cwdErr != nil {
+		panic("failed to get current working directory: " + _cwdErr.Error())
+	}
+	if filepath.IsAbs(filename) {
+		return filepath.Clean(filename)
+	}
+	return filepath.Join(_cwd, filename)
+}
+
 // Converse returns the converse of the given token. It panics if the token is not a valid comparison.
 func Converse(t token.Token) token.Token {
 	switch t {
